@@ -70,8 +70,16 @@ def constant_value_facts():
     """expand_expression returns eval(expr) as it is; handle_expression stores it as ConstantExpr.value"""
     tree = load("parser.py")
     fn = find_func(tree, "expand_expression", "Parser")
-    if len(fn.body) < 2 or _u(fn.body[-1]) != "return (expanded, value)" or _u(fn.body[-2]) != "value = eval(expr)":
-        raise TranslateError("expand_expression: does not end with `value = eval(expr)` / `return expanded, value`: "
+    # value = eval(expr), guarded only against a division by zero (turned into ExpressionExpansionError), returned as it is
+    ev = fn.body[-2] if len(fn.body) >= 2 else None
+    ok_eval = ev is not None and (
+        _u(ev) == "value = eval(expr)" or
+        (isinstance(ev, ast.Try) and len(ev.body) == 1 and _u(ev.body[0]) == "value = eval(expr)" and not ev.orelse
+         and not ev.finalbody and len(ev.handlers) == 1 and _u(ev.handlers[0].type) == "ZeroDivisionError"
+         and _raises(ev.handlers[0].body, "expand_expression: ZeroDivisionError handler") == "ExpressionExpansionError"))
+    if not ok_eval or _u(fn.body[-1]) != "return (expanded, value)":
+        raise TranslateError("expand_expression: does not end with `value = eval(expr)` (optionally inside "
+                             "try/except ZeroDivisionError -> ExpressionExpansionError) / `return expanded, value`: "
                              + " ; ".join(_u(s) for s in fn.body[-2:])[:200])
     subs = [n for n in ast.walk(fn) if isinstance(n, ast.Call) and _u(n.func) == "re.sub"]
     if len(subs) != 1 or _u(subs[0].args[1]) != "str(c.value)":
